@@ -3,7 +3,7 @@
    namespace (documents in natural order + every index entry) and the change
    events appended since the previous call are printed.  Parametric in the
    operator semantics; ApiOps.v chooses the instance. *)
-From Lungo.Model Require Import Driver RunAccess.
+From Lungo.Model Require Import Driver DriverExt RunAccess.
 Open Scope string_scope.
 
 Section RunApi.
@@ -276,21 +276,56 @@ Section RunApi.
     | _ => call_of x
     end.
 
+  (* the catalog-level calls of DriverExt.v *)
+  Definition ispec_of (x : sexp) : option ispec :=
+    match x with
+    | SList [n; k; u; p; e] =>
+        do n' <- str_of n; do k' <- doc_of_sexp k; do u' <- bool_of_sexp u; do p' <- optdoc_of p; do e' <- optz_of e;
+        Some (mkISpec n' k' u' p' e')
+    | _ => None
+    end.
+
+  Definition xcall_in (ds : dstate) (x : sexp) : option xcall :=
+    match x with
+    | SList [SAtom "createColl"; s; db; co] =>
+        do s' <- z_of s; do h <- handle_of db co; Some (XCreateColl s' h)
+    | SList [SAtom "listColls"; s; db; q] =>
+        do s' <- z_of s; do db' <- str_of db; do q' <- doc_of_sexp q; Some (XListColls s' db' q')
+    | SList [SAtom "listDbs"; s; q] =>
+        do s' <- z_of s; do q' <- doc_of_sexp q; Some (XListDbs s' q')
+    | SList (SAtom "createMany" :: s :: db :: co :: specs) =>
+        do s' <- z_of s; do h <- handle_of db co; do sp' <- opt_mapM ispec_of specs; Some (XCreateMany s' h sp')
+    | _ => option_map XBase (call_in ds x)
+    end.
+
+  Definition xtarget_of (x : xcall) : option handle :=
+    match x with
+    | XBase c => target_of c
+    | XCreateColl _ h | XCreateMany _ h _ => Some h
+    | _ => None
+    end.
+
+  Definition show_xreply (r : xreply) : string :=
+    match r with
+    | XR r => show_reply r
+    | XNames l e => par ["names"; par (map hex l); match e with Some k => show_ekind k | None => "OK" end]
+    end.
+
   Fixpoint run_calls (now : Z) (ds : dstate) (cs : list sexp) : list string :=
     match cs with
     | [] => ["FINAL " ++ show_catalog (ds_cat ds)]
     | x :: t =>
-        match call_in ds x with
+        match xcall_in ds x with
         | None => ["BAD-CALL"]
         | Some c =>
             let before := cat_clock (ds_cat ds) in
             let len_before := len (oplog_docs (ds_cat ds)) in
-            let '(ds', r) := step matchf applyf extractf projectf now ds c in
+            let '(ds', r) := xstep matchf applyf extractf projectf now ds c in
             let evs := new_events (ds_cat ds') before in
             let trimmed := (len_before + len evs - len (oplog_docs (ds_cat ds')))%Z in
             let line :=
-              sp [show_reply r;
-                  match target_of c with Some h => show_ns (ds_cat ds') h | None => "-" end;
+              sp [show_xreply r;
+                  match xtarget_of c with Some h => show_ns (ds_cat ds') h | None => "-" end;
                   par (canon_events evs [] []); show_Z trimmed] in
             line :: run_calls now ds' t
         end
